@@ -8,7 +8,7 @@
 * `Model.expected()`             what endpoint lookup (RFC 9176 section 6.3), resource lookup (6.2) and the
                                  registration resources must show, in an order-insensitive canonical form
 * `canon_ep` / `canon_res` / `canon_links`   bring *observed* link-format (parsed by reflink) into the same form
-* `representable_name` / `bad_authority` / `features` / `valueless_names`   what of a registration's content link-format
+* `representable_name` / `bad_authority` / `has_uri_delimiter` / `resolution_features` / `features` / `valueless_names`   what of a registration's content link-format
                                  (RFC 6690 parmname, quoted-pair) or RFC 3986 (authority) cannot carry as it stands;
                                  used by the check to NAME a mismatch after its mechanism and to count coverage
 
@@ -190,6 +190,43 @@ def bad_authority(uri):
     return _RE_REGNAME.match(host) is None
 
 
+# RFC 3986 appendix C (and RFC 2396 2.4.3 "delims", "space", "control"): the characters that delimit a URI in running
+# text and can therefore never be part of one -- in particular not of the URI-Reference between '<' and '>' of a link
+_RE_URI_DELIM = re.compile('[\x00-\x20\x7f<>"]')
+
+
+def has_uri_delimiter(s):
+    return s is not None and _RE_URI_DELIM.search(s) is not None
+
+
+def _relative_path_ref(ref):
+    """Is `ref` a relative-path reference with a non-empty path (the only kind whose path is MERGED with the base's,
+    RFC 3986 5.2.3)?"""
+    s, a, p, _q, _f = _split(ref)
+    return s is None and a is None and p != "" and not p.startswith("/")
+
+
+def resolution_features(r):
+    """Which corners of RFC 3986 5.2 does resolving the links of `r` against its base touch?
+    empty-path-segment     : a relative-path reference whose merged path has an empty segment ("//"), from the base's
+                             directory or from the reference -- the segment is part of the path (5.2.3 merges strings,
+                             5.2.4 removes only "." and "..")
+    empty-query-reference  : a reference with an EMPTY (not absent) query: 5.2.2 takes the reference's query whenever it is
+                             defined (also over a base's query), and 5.3 writes the "?" of a defined query"""
+    f = set()
+    _bs, ba, bp, _bq, _bf = _split(r.base)
+    refs = [l.href for l in r.links] + [v for l in r.links for k, v in l.params if k == "anchor" and v is not None]
+    for ref in refs:
+        rs, ra, rp, rq, _rf = _split(ref)
+        if _relative_path_ref(ref):
+            merged = ("/" + rp) if (ba is not None and bp == "") else bp[: bp.rfind("/") + 1] + rp
+            if "//" in merged:
+                f.add("empty-path-segment")
+        if rq == "":
+            f.add("empty-query-reference")
+    return f
+
+
 def features(r):
     """Which of the things a registration may legitimately be *asked* to store, but that a careless directory trips
     over, does the model registration `r` contain? (Used to name a violation after its mechanism and to count what
@@ -210,6 +247,11 @@ def features(r):
         f.add("parameter-value")
     if bad_authority(r.base):
         f.add("base")
+    if has_uri_delimiter(r.base):
+        f.add("delimiter-in-base")
+    if any(has_uri_delimiter(l.href) for l in r.links):
+        f.add("delimiter-in-link-target")
+    f |= resolution_features(r)
     for l in r.links:
         for k, v in l.params:
             if v is None:
@@ -610,6 +652,18 @@ def selftest():
         ("coap://ex\u2100mple/", True), ("http://[", True), ("//[::1/x", True), ("coap://a b/", True), ("coap://h/[", False),
     ]:
         assert bad_authority(uri) == bad, uri
+    # empty segments and empty queries are kept (RFC 3986 5.2.3 merge, 5.2.4, 5.2.2)
+    for base, ref, want in [
+        ("coap://h/fw//v2/", "status", "coap://h/fw//v2/status"), ("coap://h/dev/", "a//b", "coap://h/dev/a//b"), ("coap://h/dev/", "/a//b", "coap://h/a//b"),
+        ("coap://h", "a//b", "coap://h/a//b"), ("coap://h/a/b//", "c", "coap://h/a/b//c"), ("coap://h/dev/", "./c//d/../e", "coap://h/dev/c//e"),
+        ("coap://h/dev/", "x//", "coap://h/dev/x//"), ("coap://h/a//b/", "../c", "coap://h/a//c"), ("coap://h/a//b/", "../../c", "coap://h/a/c"),
+        ("coap://h/p/q?x=1", "?", "coap://h/p/q?"), ("coap://h/p/q?x=1", "", "coap://h/p/q?x=1"), ("coap://h/p/q?x=1", "?y", "coap://h/p/q?y"),
+        ("coap://h/p/q?x=1", "r", "coap://h/p/r"), ("coap://h/p/q?x=1", "#f", "coap://h/p/q?x=1#f"), ("coap://h/p/q?x=1", "?#f", "coap://h/p/q?#f"),
+        ("coap+x://h/p/", "r//s", "coap+x://h/p/r//s"),
+    ]:
+        assert resolve(base, ref) == want, (base, ref, resolve(base, ref), want)
+    for t, bad in [("coap://h/a>b", True), ("a<b", True), ("a b", True), ('a"b', True), ("a\tb", True), ("a\x7fb", True), ("coap://h/a,b;c='d'(e)*!$&+=:@%41", False), ("", False), (None, False), ("a\\b^`{|}", False), ("\u00fc", False)]:
+        assert has_uri_delimiter(t) == bad, t
     m = Model(15)
     L = reflink.parse('</a>;rt="x y",<r>;anchor="/z"')
     r = m.register(("n", None), "/reg/1/", parse_query(["ep=n", "lt=60", "foo=1"]), L, ("10.0.0.2", 40000), 0.0)
@@ -635,6 +689,11 @@ def selftest():
     o = m.register(("tr\\", None), "/reg/3/", parse_query(["ep=tr\\", "a;b=c", "if", "foo=x\\", "base=coap://["]), reflink.parse('</a>;obs;title="q\\\\",<http://[>,</b>;anchor="//[zz]"'), ("10.0.0.2", 5683), 300.0)
     assert features(o) == {"parameter-name", "parameter-value", "valueless-parameter", "base", "link-attribute-value", "valueless-link-attribute", "link-target"}, features(o)
     assert valueless_names(o) == {"if", "obs"}
+    e = m.register(("e", None), "/reg/4/", parse_query(["ep=e", "base=coap://h/fw//v2/?x=1"]), reflink.parse("<status>,</abs//x>,<?>"), ("10.0.0.2", 5683), 300.0)
+    assert resolution_features(e) == {"empty-path-segment", "empty-query-reference"} and "delimiter-in-base" not in features(e)
+    e = m.register(("e", None), "/reg/4/", parse_query(["ep=e", "base=coap://h/a>b/"]), reflink.parse("</abs//x>,<?>,<r>,<q r>"), ("10.0.0.2", 5683), 300.0)
+    assert features(e) == {"delimiter-in-base", "delimiter-in-link-target", "empty-query-reference"}, features(e)
+    m.remove(e)
     m.note_rejected(s, parse_query(["lt=2"]), 215.0, "update-put")
     m.prune_refuted(240.0)
     assert s.alts == [] and s.latent == [(2, "update-put")]
